@@ -462,6 +462,8 @@ impl<T> Parser<T> for ParseCommand<T> {
                 {
                     Ok(ok) => {
                         args.set_scope(orig_args.scope());
+                        // an adjacent command is done: siblings that follow are not nested in it
+                        args.path.pop();
                         Ok(ok)
                     }
                     Err(err) => {
@@ -470,6 +472,7 @@ impl<T> Parser<T> for ParseCommand<T> {
                             orig_args.set_scope(narrow_scope);
                             if let Ok(res) = self.subparser.run_subparser(&mut orig_args) {
                                 orig_args.set_scope(orig_scope);
+                                orig_args.path.pop();
                                 std::mem::swap(&mut orig_args, args);
                                 return Ok(res);
                             }
